@@ -37,6 +37,10 @@ def screen_check(pid, tier, seed, families, rules_note, need_paints=True, level=
             # design level: the implementation-shaped draw path against the contract, and its transitions as histories
             consts = dict(f["constants"], **f.get("extra", {}))
             cfg = vlib.cfg_text(consts, invariants=["TypeOK", "ScreenMatches", "CursorMatches", "LlcOK"], spec="SSpec", view="SView")
+        elif model == "MC_Multi":
+            # design level: the implementation-shaped MultiState book-keeping against the contract
+            consts = dict(f["constants"], **f.get("extra", {}))
+            cfg = vlib.cfg_text(consts, invariants=["TypeOK", "ContractHolds"], spec="MSpec", view="MView")
         else:
             cfg = vlib.cfg_text(f["constants"], invariants=["TypeOK"], view="CoverView" if f["constants"].get("Cover") else None)
         mode = f["mode"]
@@ -46,7 +50,7 @@ def screen_check(pid, tier, seed, families, rules_note, need_paints=True, level=
         else:
             outs, dist, gen = vlib.run_tlc_sims(model, cfg, wd, mode[1], mode[2], seed)
             hs = [h for o in outs for h in vlib.histories_from(o)]
-        if not hs and model == "MC_Single" and not f["constants"].get("Cover"):
+        if not hs and model in ("MC_Single", "MC_Multi") and not f["constants"].get("Cover"):
             states += dist
             trans += gen
             per_family.append({"family": f["name"], "mode": "design-level invariants only", "histories": 0, "records": 0, "verdicts": 0,
@@ -128,6 +132,9 @@ def c02(pid, tier, seed):
     ] + ([] if q else [
         fam("multi_zombie_orders", W=4, H=12, Multi=True, MaxBars=3, Pre=3, Once=True, D=11, BarOps=("finish", "drop"), MpOps=("mp_println",),
             TextShapes=("T",), Tpls=("M",), Fins=("AndLeave",), M0="id", shards=12)]) + [
+        fam("design_multi", W=4, H=14, Multi=True, MaxBars=3, Pre=2, Once=True, D=7 if q else 8, BarOps=("tick", "finish", "drop", "println", "set_message"),
+            MpOps=("mp_println", "mp_clear"), MsgShapes=("a", "W1"), TextShapes=("T",), Tpls=("M",), Fins=("AndLeave",), M0="id", Base=0,
+            model="MC_Multi", extra=dict(MaxLog=2, TextOnlyNewline=True, ZombieAccounting="repaired")),
         fam("multi_zombie_cover", W=4, H=14, Multi=True, MaxBars=4, Pre=3, Once=True, Cover=True, D=13 if q else 15, BarOps=("finish", "drop", "tick"), MpOps=(),
             Tpls=("M",), Fins=("AndLeave",), M0="id", shards=12),
         fam("multi_limited", W=4, H=12, Multi=True, MaxBars=2, D=5 if q else 6, BarOps=("burst", "set_message", "finish", "drop", "tick"), MpOps=(),
